@@ -41,13 +41,12 @@ namespace awkward {
       .append("dup ").append(std::to_string(static_cast<utype>(state::null)))
       .append(" = if").append("\n")
       .append("drop\n")
-      .append("variable null    -1 null !").append("\n")
-      .append("null @ ")
+      .append("-1 ")
       .append(vm_output_data_).append(" <- stack").append("\n")
       .append("exit\n")
       .append("else\n")
-      .append("variable index    1 index +!").append("\n")
-      .append("index @ 1- ")
+      .append("variable ").append(vm_func_name_).append("-count    1 ").append(vm_func_name_).append("-count +!").append("\n")
+      .append(vm_func_name_).append("-count @ 1- ")
       .append(vm_output_data_).append(" <- stack").append("\n")
       .append(content_.get()->vm_func_name()).append("\n")
       .append("then\n")
@@ -187,6 +186,11 @@ namespace awkward {
   void
   IndexedOptionArrayBuilder::end_list(LayoutBuilder* builder) {
     content_.get()->end_list(builder);
+  }
+
+  bool
+  IndexedOptionArrayBuilder::active() {
+    return content_.get()->active();
   }
 
 }
